@@ -285,3 +285,8 @@ class FramingProbe(session.Messenger):
                 self._in_conn = True
             else:
                 self.dead = True
+
+    def close(self):
+        # recv_raw itself closes on an unknown message type
+        self.dead = True
+        session.Messenger.close(self)
